@@ -22,6 +22,8 @@ theorem run_map {α β : Type} (g : α → β) (m : M α) (s : St) :
 
 theorem run_modify (f : St → St) (s : St) : (modify f : M Unit) s = ((), f s) := rfl
 
+theorem run_modifyGet {α : Type} (f : St → α × St) (s : St) : (modifyGet f : M α) s = f s := rfl
+
 theorem run_get (s : St) : (get : M St) s = (s, s) := rfl
 
 theorem run_set (s' s : St) : (set s' : M Unit) s = ((), s') := rfl
